@@ -105,7 +105,7 @@ Definition copy_merge_v (a b : req) : req :=
      addr := len_cm (addr a) (addr b);
      wp := len_cm (wp a) (wp b);
      reason := reason_cm (reason a) (reason b);
-     push := push b;                       (* Push: other.Push — unconditionally *)
+     push := match push b with Some p => Some p | None => push a end;   (* newerPushContext(pr.Push, other.Push) *)
      start := start a;
      forced := forced a || forced b |}.
 
